@@ -866,6 +866,10 @@ type relayFragmentSender struct {
 	outboundRelayItems *relayItems
 	origID             uint32
 	sentReporter       sentBytesReporter
+
+	// failed is set once a fragment could not be sent: the relay item has been
+	// failed (and the call ended), so any further fragments must be dropped.
+	failed bool
 }
 
 func (r *Relayer) newFragmentSender(dstRelay frameReceiver, cr *lazyCallReq, origID uint32, sentReporter sentBytesReporter) *relayFragmentSender {
@@ -929,11 +933,19 @@ func (rfs *relayFragmentSender) newFragment(initial bool, checksum Checksum) (*w
 }
 
 func (rfs *relayFragmentSender) flushFragment(wf *writableFragment) error {
+	if rfs.failed {
+		// The call was already failed and ended by an earlier fragment, so
+		// don't report or forward anything else for it.
+		rfs.framePool.Release(wf.frame)
+		return nil
+	}
+
 	wf.frame.Header.SetPayloadSize(uint16(wf.contents.BytesWritten()))
 	rfs.sentReporter.SentBytes(wf.frame.Header.FrameSize())
 
 	sent, failure := rfs.frameReceiver.Receive(wf.frame, requestFrame)
 	if !sent {
+		rfs.failed = true
 		rfs.failRelayItemFunc(rfs.outboundRelayItems, rfs.origID, failure, errFrameNotSent)
 		rfs.framePool.Release(wf.frame)
 		return nil
